@@ -161,7 +161,7 @@ def to_int(interp, v):
         return SInt(tm.mk_ite(tm.mk_le(tm.const(Fraction(0)), v.t), fl,
                               tm.mk_neg(tm.mk_floor(tm.mk_neg(v.t)))))
     if isinstance(v, SStr):
-        raise Unsupported('int() of a general symbolic string')
+        return int_with_base(interp, v, 10)
     if isinstance(v, SErr):
         interp.raise_(ValueError, 'invalid literal for int()')
     if isinstance(v, (Sym, SymSeq, Obj)):
